@@ -41,6 +41,7 @@ def run(ck, fb):
     r20f(ck, fb)
     r20g(ck, fb)
     r20h(ck, fb)
+    r20i(ck, fb)
 
 
 def r20a(ck, fb):
@@ -500,3 +501,49 @@ def r20h(ck, fb, R='R20h'):
     lit = [(bb, st) for (o, f, bb, st) in b.field_writes() if f == 'end' and st['rv']['k'] == 'use' and 'c' in st['rv']['op']]
     ck.require(not lit, R, 'append_next_buf:end-not-literal', b.where(lit[0][0]) if lit else b.where(),
                '`end` is set to a literal in append_next_buf: whatever lay between start and end is forgotten')
+
+
+def r20i(ck, fb, R='R20i'):
+    ck.rule(R, '"reading stops at the first zero length and never earlier": FileMessageReader::read_len peeks up to 10 bytes for the length prefix; the number '
+               'of bytes the peek returned decides "end of stream" only when it is ZERO. A stream whose last record (prefix + body) is shorter than the '
+               'peek window - a catalogue file that holds term and vote only, 11 to 17 bytes - returns fewer than 10 bytes: any test of the count other than '
+               '== 0 / != 0 that leads to an error reports that record as the end (the store then does not reopen)')
+    b = ck.main(PU + 'FileMessageReader::read_len', R)
+    if not b:
+        return
+    rd = b.calls(r'AsyncReadExt>::read$|AsyncReadExt::read$|::read_full$|AsyncReadExt>::read_buf$|AsyncReadExt>::read_exact$')
+    ck.floor(R, 'peek reads in read_len', len(rd), 1)
+    t = Taint(b, call_src=lambda term: re.search(r'AsyncReadExt>::read$|AsyncReadExt::read$|::read_full$|read_buf$|read_exact$', cfg.callee_name(term) or '') is not None)
+    errs = {i for (i, j, st) in b.aggregates(r'^std::result::Result$', 'Err')}
+    n = 0
+    for (i, j, st) in b.stmts():
+        rv = st.get('rv')
+        if not rv or rv['k'] != 'bin' or rv['op'] not in ('Eq', 'Ne', 'Lt', 'Le', 'Gt', 'Ge'):
+            continue
+        ta, tb_ = t.op_tainted(rv['a']), t.op_tainted(rv['b'])
+        if not (ta or tb_):
+            continue
+        # only comparisons of the COUNT (usize), not of the decoded length
+        other = rv['b'] if ta else rv['a']
+        from rn.facts import op_const
+        c = op_const(other)
+        ty = (c or {}).get('ty')
+        if ty is not None and ty != 'usize':
+            continue
+        d = st.get('d')
+        if not isinstance(d, int):
+            continue
+        # does one of its edges lead to an error return without passing the decode?
+        n += 1
+        zero = c is not None and str(c.get('v')) == '0' and rv['op'] in ('Eq', 'Ne')
+        leads = False
+        for (s0, d0, lab0, t0) in cfg.switch_edges(b):
+            dd = cfg.describe_operand(b, t0['discr'])
+            if dd['k'] == 'bin' and dd.get('bb') == i and s0 == i or (dd['k'] == 'bin' and dd.get('bb') == i):
+                r = cfg.reach_from(b, [d0], blocked_blocks={x.bb for x in b.calls(r'read_varint64$')})
+                if errs & r:
+                    leads = True
+        ck.require(zero or not leads, R, 'read_len:end-of-stream-only-for-zero-bytes:%s' % rv['op'], b.where(i),
+                   'read_len reports an error (end of stream) depending on `%s` of the byte count of the peek with a non-zero bound: a last record shorter than '
+                   'the 10-byte window is never read' % rv['op'], 'count tested against 0 only')
+    ck.floor(R, 'tests of the peek byte count', n, 1)
